@@ -12,7 +12,8 @@ RULE = ("cases: (a) random source = product of <=3 factors (|exp|<=3) of registe
         "sign, |exponent|, derived-dimension base unit?, prefixed?); non-trivial = source is not target and the "
         "conversion returned a value that the oracle checked"
         " One shard runs under non-default decimal contexts (7-40 digits, traps on/off) with mostly Decimal magnitudes; a finite magnitude converted to NaN is a violation; prefixes of the user's own in other bases; synthetic systems state a fifth of their equivalences from a prefixed form of the unit and re-declare leaves after queries."
-        " One shard asks the same and different first-time questions from two threads at once (deterministic scheduler, exact expected answers).")
+        " One shard asks the same and different first-time questions from two threads at once (deterministic scheduler, exact expected answers)."
+        " kit.aliasing_probe runs first (aliases of handed-out objects updated with every augmented assignment, returned quantities edited in place).")
 ASSUMPTIONS = [
     "unit sizes are solved from the intercepted equals()/scale() declarations in exact rational arithmetic; "
     "where shipped declarations disagree the oracle is the interval spanned by neighbouring spanning trees",
